@@ -285,12 +285,22 @@ func genMergeCase(r *rand.Rand, injectPct int) *mergeCase {
 		// an object type split over the services with no field in common (no id either): the first
 		// service declares three fields, every other one a single field of its own -- whatever a merge
 		// does with the first service's field list, it has room for exactly one more entry
+		// ... and each part implements interfaces of its own: three in the first service (the list of
+		// their names has room for exactly one more), one in every other service, whose name sorts
+		// between them
 		for i, s := range mc.Services {
 			d := &mDef{Kind: "type", Name: "Stats"}
 			if i == 0 {
 				d.Fields = []mField{{Name: "views", Type: "Int"}, {Name: "likes", Type: "Int"}, {Name: "since", Type: "String"}}
+				d.Impl = []string{"HasViews", "Liked", "Zoned"}
+				s.Defs = append(s.Defs,
+					&mDef{Kind: "interface", Name: "HasViews", Fields: []mField{{Name: "views", Type: "Int"}}},
+					&mDef{Kind: "interface", Name: "Liked", Fields: []mField{{Name: "likes", Type: "Int"}}},
+					&mDef{Kind: "interface", Name: "Zoned", Fields: []mField{{Name: "since", Type: "String"}}})
 			} else {
 				d.Fields = []mField{{Name: "count" + s.Name, Type: "Int"}}
+				d.Impl = []string{"Jcount" + s.Name}
+				s.Defs = append(s.Defs, &mDef{Kind: "interface", Name: "Jcount" + s.Name, Fields: []mField{{Name: "count" + s.Name, Type: "Int"}}})
 			}
 			s.Defs = append(s.Defs, d)
 		}
